@@ -325,7 +325,7 @@ def part_a(ctx, drv):
                 out = det.update(None, y.build(), None)
                 e, got = None, "ok " + arr_str(out[1])
             except Exception as ex:
-                e, got = ex, "rej"
+                e, got = ex, ("rej" if exc_class(ex) == "ValueError" else "rej-with-" + exc_class(ex))   # the contract is ValueError
             lines.append("Y " + y.spec())
             exp.append((got, (mode, "Y", y.key())))
             ctx.case((mode, "Y", y.key()), True)
@@ -354,7 +354,7 @@ def part_a(ctx, drv):
                         out = det.update(x.build(), None if a is None else a.build(), None if b is None else b.build())
                         got = "ok X=%s yt=%s yp=%s" % tuple(arr_str(o) for o in out)
                     except Exception as ex:
-                        got = "rej"
+                        got = "rej" if exc_class(ex) == "ValueError" else "rej-with-" + exc_class(ex)
                     lines.append("I %s ; %s ; %s" % (x.spec(), "none" if a is None else a.spec(), "none" if b is None else b.spec()))
                     exp.append((got + " | " + state_str(det), (mode, "I", x1.key(), x2.key())))
                 ctx.case((mode, "I", x1.key(), x2.key(), None if yt is None else yt.key(), None if yp is None else yp.key()), True)
